@@ -402,6 +402,11 @@ func main() {
 				c := &cfg{V: mc.Pick(r, 4, 6), N: mc.Pick(r, 6, 7), SetV: 3, SetLen: 3}
 				c.Roots, c.RootCap = roots(3, mc.Pick(r, 3, 4))
 				res := makeBFS(c, &cnt).Run(r)
+				// a deeper heap (four levels) over fewer values and without Set
+				deep := &cfg{V: 3, N: mc.Pick(r, 10, 12), SetV: 1, SetLen: 0}
+				deep.Roots, deep.RootCap = [][]int{nil}, []int{0}
+				res2 := makeBFS(deep, &cnt).Run(r)
+				r.Bound("deeper_configuration", fmt.Sprintf("3 values, up to %d elements, no Set: %d states, %d transitions", deep.N, res2.States, res2.Transitions))
 				r.Bound("values", c.V)
 				r.Bound("max_len", c.N)
 				r.Bound("set_args", "all sequences over {0,1,2} up to length 3")
